@@ -106,7 +106,13 @@ impl Scenario for Hg {
             Delay::SubMs => b.delay(Duration::from_micros(900)),
             d => {
                 let scale = self.scale;
-                b.delay_fn(move |k| Duration::from_millis(d.of(k) * scale))
+                let max = self.max;
+                // a delay table with one entry per hedge that exists (hedges 1..max-1): asking
+                // it about any other hedge is an error of the layer, and panics here
+                b.delay_fn(move |k| {
+                    assert!(k >= 1 && k < max.max(1), "delay function asked for hedge {k}, but only hedges 1..{} exist", max.max(1));
+                    Duration::from_millis(d.of(k) * scale)
+                })
             }
         };
         let layer = b.build();
